@@ -22,8 +22,10 @@ package criteria_omission
 //@   ensures [parameters_restricted] model.coversAll(*listener, result0.MethodParameters, result0.Criteria) && model.validParams(*listener, result0.MethodParameters)
 //@   ensures [fresh_state] fresh(result0.ConsideredAlternatives) && fresh(result0.NotConsideredAlternatives)
 
+// what "made of the current state" means for this bias (the abstract model.actsOn)
+//@ pred omissionActs(b model.Bias, out *model.DecisionMakingParams, in *model.DecisionMakingParams) = len(out.Criteria) <= len(in.Criteria) && forall k int :: 0 <= k && k < len(out.Criteria) ==> exists j int :: 0 <= j && j < len(in.Criteria) && out.Criteria[k] == in.Criteria[j]
 //@ func (*CriteriaOmission).Apply
-//@   refines model.Bias.Apply
+//@   refines model.Bias.Apply with actsOn=omissionActs
 //@   property C15 C07 C09 C01
 //@   requires model.coherent(*listener, *current)
 //@   ensures [report_type] typeis(result.Props, CriteriaOmissionResult)
